@@ -222,7 +222,7 @@ impl<'a> R<'a> {
                 break;
             }
             let noise: Vec<f64> = (0..len).map(|_| self.u8() as f64 / 256.0).collect();
-            let regime = if dom != Domain::AnySign && regime >= 8 { regime - 8 } else { regime };
+            let regime = if dom != Domain::AnySign && (regime == 8 || regime == 9) { regime - 8 } else { regime };
             out.extend(expand(dom, regime, base, aux, &noise));
         }
         out
@@ -327,7 +327,7 @@ pub fn decode_c08(b: &[u8]) -> c08::Case {
         2 => r.u16() as usize % 3000,
         _ => [700, 1100, 2 * n + 3, 5 * n][r.u8() as usize % 4],
     };
-    c08::Case { cfg: Cfg { kind, p, m: X(m) }, scalar, prefix, zv, level: X(level), vol: X(1.0 + r.u8() as f64), flat_len }
+    c08::Case { cfg: Cfg { kind, p, m: X(m) }, scalar, prefix, zv, level: X(level), vol: X(1.0 + r.u8() as f64), flat_len, neg_zero_mask: 0 }
 }
 
 pub fn decode_c09(b: &[u8]) -> c09::Case {
